@@ -70,7 +70,7 @@ func (h *vfE2H) after(tps ...*vfE2Topic) {
 		h.tdump(tp)
 	}
 	h.emit("settle", "quiet")
-	if h.nOps%7 == 0 {
+	if h.nOps%7 == 0 && !h.micro {
 		h.emit("inv", "inv ok")
 	}
 	if h.nOps%40 == 0 {
@@ -374,6 +374,72 @@ func (h *vfE2H) doMpub(t int, sizes []int, viaHTTP bool) {
 	}
 	h.emit(fmt.Sprintf("mpub %d %s", t, strings.Join(ss, ",")), "ids "+strings.Join(ids, " "))
 	h.count("op:mpub")
+	h.after(tp)
+}
+
+// vfE2FailBQ: a backend queue whose n-th write from now fails (injected disk error)
+type vfE2FailBQ struct {
+	BackendQueue
+	left int32
+}
+
+func (b *vfE2FailBQ) Put(d []byte) error {
+	if atomic.AddInt32(&b.left, -1) < 0 {
+		return fmt.Errorf("verif: injected write error")
+	}
+	return b.BackendQueue.Put(d)
+}
+
+// doMpubFail: MPUB of len(sizes) messages on a topic without memory queue whose (j+1)-th backend
+// write fails: the j messages before it stay enqueued and are counted (C13.2 prefix case), the
+// publish is answered E_MPUB_FAILED (fatal) and nothing is acknowledged.
+func (h *vfE2H) doMpubFail(t int, sizes []int, j int) {
+	tp := h.topic(t)
+	rt := h.n.GetTopic(tp.name)
+	if h.cfg.memq != 0 || j >= len(sizes) {
+		return
+	}
+	rt.Lock()
+	orig := rt.backend
+	rt.backend = &vfE2FailBQ{BackendQueue: orig, left: int32(j)}
+	rt.Unlock()
+	var body bytes.Buffer
+	var n4 [4]byte
+	binary.BigEndian.PutUint32(n4[:], uint32(len(sizes)))
+	body.Write(n4[:])
+	first := h.nextSeq
+	var ss []string
+	for _, sz := range sizes {
+		seq := h.nextSeq
+		h.nextSeq++
+		h.sizes[seq] = sz
+		b := vfE2Body(seq, sz)
+		binary.BigEndian.PutUint32(n4[:], uint32(len(b)))
+		body.Write(n4[:])
+		body.Write(b)
+		ss = append(ss, strconv.Itoa(sz))
+	}
+	var sz [4]byte
+	binary.BigEndian.PutUint32(sz[:], uint32(body.Len()))
+	code, fatal := h.connCmd(h.pubc, "MPUB "+tp.name, append(sz[:], body.Bytes()...), true)
+	rt.Lock()
+	rt.backend = orig
+	rt.Unlock()
+	h.n.SetHealth(nil)
+	if code != "E_MPUB_FAILED" || !fatal {
+		h.fail("mpubfail", "MPUB with an injected write error answered %s", vfE2Fmt(code, fatal))
+	}
+	h.pubc.nc.Close()
+	h.pubc = h.dial(0)
+	for i := 0; i < j; i++ {
+		seq := first + i
+		h.topicOf[seq] = tp.t
+		tp.pending = append(tp.pending, seq)
+		tp.unackedN++
+		tp.unackedB += uint64(sizes[i])
+	}
+	h.emit(fmt.Sprintf("mpubfail %d %s %d", t, strings.Join(ss, ","), j), vfE2Fmt(code, fatal))
+	h.count("op:mpubfail")
 	h.after(tp)
 }
 
@@ -777,6 +843,13 @@ func (h *vfE2H) exec(line string) {
 			sizes = append(sizes, v)
 		}
 		h.doMpub(ai(1), sizes, len(w) > 3 && w[3] == "http")
+	case "mpubfail":
+		var sizes []int
+		for _, s := range strings.Split(w[2], ",") {
+			v, _ := strconv.Atoi(s)
+			sizes = append(sizes, v)
+		}
+		h.doMpubFail(ai(1), sizes, ai(3))
 	case "fin":
 		h.doFin(ai(1), w[2])
 	case "req":
@@ -804,6 +877,8 @@ func (h *vfE2H) exec(line string) {
 		h.drain()
 	case "f8":
 		h.doF8(ai(1), w[2])
+	case "overshoot":
+		h.doOvershoot(ai(1))
 	}
 }
 
@@ -900,7 +975,9 @@ func (h *vfE2H) drain() {
 		}
 	}
 	h.statsCheck()
-	h.emit("inv", "inv ok")
+	if !h.micro {
+		h.emit("inv", "inv ok")
+	}
 }
 
 // ---------------------------------------------------------------- generators
@@ -987,6 +1064,13 @@ func (h *vfE2H) genOp(malformed bool) {
 			via = " http"
 		}
 		h.exec(fmt.Sprintf("pub %d %d%s", tp.t, h.size(), via))
+	case pick < 215 && h.cfg.memq == 0 && r.Intn(5) == 0:
+		n := 2 + r.Intn(4)
+		var ss []string
+		for i := 0; i < n; i++ {
+			ss = append(ss, strconv.Itoa(h.size()))
+		}
+		h.exec(fmt.Sprintf("mpubfail %d %s %d", tp.t, strings.Join(ss, ","), r.Intn(n)))
 	case pick < 215:
 		h.parkEphemeral(tp.sortedChans())
 		n := 2 + r.Intn(4)
